@@ -70,8 +70,11 @@ def build(cfg):
             if hasattr(s, n):
                 probes.append((f"s{k}_{n}", getattr(s, n)))
         start, stop, ratio = wins[id(s.memory_map)]
+        kind = cfg["subs"][k]["kind"]
+        if s.data_width == dw and s.granularity == gran:
+            kind = "dense"          # equal geometry: the sparse flag is ignored by the memory map
         meta["subs"].append(dict(start=start, stop=stop, ratio=ratio, map_aw=s.memory_map.addr_width,
-                                 aw=s.addr_width, dw=s.data_width, kind=cfg["subs"][k]["kind"],
+                                 aw=s.addr_width, dw=s.data_width, kind=kind,
                                  feat=sorted(f.value for f in s.features)))
     meta["map_aw"] = b.memory_map.addr_width
     return Harness(m, inputs, probes, meta)
